@@ -98,11 +98,13 @@ def verticesOld {α} [Sub α] [Add α] [Mul α] [Div α] [Neg α] [OfNat α 0] [
 /-- the tangent lines: for every direction the `q`-quantile of the projected sample. -/
 def tangentLines {α} [Add α] [Sub α] [Mul α] [LE α] [DecidableLE α] [OfNat α 1]
     (fl : α → Nat) (ofN : Nat → α) (half : α) (cosT sinT : α → α)
-    (pts : List (α × α)) (q : α) (angles : List α) : Option (List (TLine α)) :=
-  angles.mapM fun th =>
-    match quantile7 fl ofN half (proj (cosT th) (sinT th) pts) q with
-    | some r => some { c := cosT th, s := sinT th, r := r }
-    | none => none
+    (pts : List (α × α)) (q : α) : List α → Option (List (TLine α))
+  | [] => some []
+  | th :: rest =>
+    match quantile7 fl ofN half (proj (cosT th) (sinT th) pts) q,
+        tangentLines fl ofN half cosT sinT pts q rest with
+    | some r, some ls => some ({ c := cosT th, s := sinT th, r := r } :: ls)
+    | _, _ => none
 
 /-- one full turn of directions out of the `arange`: entries `1 … nDir`. -/
 def oneTurn {β} (nDir : Nat) (angles : List β) : List β := (angles.drop 1).take nDir
